@@ -48,7 +48,60 @@ pub fn mk_transcript(desc: &Option<(Vec<u8>, Vec<Vec<u8>>)>) -> (Option<Strobe>,
   }
 }
 
+/// Sharings picked for what their key looks like: found by search at threshold 1 (where the key is the share value),
+/// keys whose last or first byte is zero; and one sharing whose message is longer than 4096 bytes.
+fn gen_special(out: &mut Out) {
+  let m = b"sharing with a special key".to_vec();
+  let mut found = 0;
+  for i in 0..6000u32 {
+    if found >= 4 {
+      break;
+    }
+    let coins = i.to_le_bytes().to_vec();
+    let c = Commune::new(1, m.clone(), coins.clone(), None);
+    let sh = match c.clone().share() { Ok(s) => s, Err(_) => continue };
+    let b = sh.to_bytes();
+    if b.len() < 48 || !(b[32] == 0 || b[47] == 0) {
+      continue;
+    }
+    found += 1;
+    let x = hex(&share_x(&b).unwrap_or_default());
+    out.case(format!("adss.share 1 {} {} ~ {}", hex(&m), hex(&coins), x), format!("ok {}", hex(&b)), Ok(()));
+    let obs = match decode_all(&[b.clone()]) {
+      Some(d) => recover_obs(&d),
+      None => "err".into(),
+    };
+    let want = format!("ok {} {}", hex(&m), static_part(&b));
+    out.case(
+      format!("adss.recover {}", hex(&b)),
+      obs.clone(),
+      if obs == want { Ok(()) } else { Err(format!("coins {}: the sharing key has a zero {} byte and the sharing does not recover", hex(&coins), if b[47] == 0 { "last" } else { "first" })) },
+    );
+  }
+  for (ml, rl) in [(4097usize, 4usize), (4usize, 4100usize)] {
+    let (m, coins) = (vec![0x4du8; ml], vec![0x52u8; rl]);
+    let c = Commune::new(2, m.clone(), coins.clone(), None);
+    let enc: Vec<Vec<u8>> = (0..2).filter_map(|_| c.clone().share().ok().map(|s| s.to_bytes())).collect();
+    if enc.len() != 2 {
+      continue;
+    }
+    let obs = match decode_all(&enc) {
+      Some(d) => recover_obs(&d),
+      None => "err".into(),
+    };
+    let want = format!("ok {} {}", hex(&m), static_part(&enc[0]));
+    out.case(
+      format!("adss.recover {}", enc.iter().map(|b| hex(b)).collect::<Vec<_>>().join(" ")),
+      obs.clone(),
+      if obs == want { Ok(()) } else { Err(format!("a sharing with a {}-byte message and {}-byte coins does not recover", ml, rl)) },
+    );
+  }
+}
+
 pub fn gen(seed: u64, thorough: bool, only: Option<u64>, out: &mut Out) {
+  if only.is_none() {
+    gen_special(out);
+  }
   let groups: u64 = if thorough { 600 } else { 40 };
   let ts: &[u32] = if thorough { &[0, 1, 2, 3, 4, 5, 8, 13, 16, 33, 64, 128, 256, 257] } else { &[0, 1, 2, 3, 5, 8] };
   for g in 0..groups {
